@@ -81,7 +81,17 @@ def encode_to_dict(obj: Any, refs: Dict[int, Any]):
         return None
     else:
         # Otherwise, we need custom encoding with support for references
-        if isinstance(obj, dict):
+        if isinstance(obj, dict) and not all(isinstance(k, str) for k in obj):
+            # JSON objects only have string keys: any other key (int, float, bool,
+            # None, tuple) is kept by encoding the dict as a list of items.
+            value = {
+                "__type": "dict_items",
+                "value": [
+                    [encode_to_dict(k, refs), encode_to_dict(v, refs)]
+                    for k, v in obj.items()
+                ],
+            }
+        elif isinstance(obj, dict):
             value = {
                 "__type": "dict",
                 "value": {k: encode_to_dict(v, refs) for k, v in obj.items()},
@@ -185,6 +195,12 @@ def decode_from_dict(d: Any, refs: Dict[int, Any]):
 
             elif d_type == "dict":
                 value = {k: decode_from_dict(v, refs) for k, v in d["value"].items()}
+
+            elif d_type == "dict_items":
+                value = {
+                    decode_from_dict(k, refs): decode_from_dict(v, refs)
+                    for k, v in d["value"]
+                }
 
             elif d_type == "set":
                 value = set(decode_from_dict(d["value"], refs))
